@@ -109,7 +109,7 @@ theorem handlers_pinned : handlerDigests = [
   ("StateMachine.getParams", "c3db6b6c31e7"),
   ("StateMachine.setParams", "eb648b67f145"),
   ("StateMachine.NewStateFromGenesis", "5763878c29b7"),
-  ("StateMachine.ValidateGenesisState", "0c017dc89fc9"),
+  ("StateMachine.ValidateGenesisState", "c043cbcf30d7"),
   ("StateMachine.ApplyTransaction", "0ba980da3e7f"),
   ("checkCommittees", "475aa0886a0a"),
   ("CommitteeData.Combine", "d317573307cd"),
